@@ -28,7 +28,7 @@ EXPLANATION = ('Every concrete operator class found by walking the subclasses of
 FUNCTIONS = ['AbstractLinearOperator.__init_subclass__/_monkey_patch_operator', 'diagonal/symmetric/orthogonal/square/lower_triangular/upper_triangular/positive_semidefinite/negative_semidefinite',
              'IdentityOperator', 'HomothetyOperator', 'DiagonalOperator', 'DiagonalInverseOperator', 'HWPOperator', 'SymmetricBandToeplitzOperator', 'QURotationOperator',
              'QURotationTransposeOperator', 'ToastObservationMatrixOperator']
-BOUNDS = {'quick': 'every catalogue leaf of 4 families + leaf.T + leaf.I (closed forms) + 40 composites; all 7 lineax tags + orthogonal + square; every strict-diagonal specification of the C11 family that the constructor accepts (a third of the single-leaf ones in the quick tier)', 'thorough': 'same + up to 3 000 composites per family'}
+BOUNDS = {'quick': 'six 3x3 toy operators declared with the tag decorators x {op, .T, .T.T, TransposeOperator(op), TransposeOperator(TransposeOperator(op))}; every catalogue leaf of 4 families + leaf.T + leaf.I (closed forms) + 40 composites; all 7 lineax tags + orthogonal + square; every strict-diagonal specification of the C11 family that the constructor accepts (a third of the single-leaf ones in the quick tier)', 'thorough': 'same + up to 3 000 composites per family'}
 STUBS = []
 ASSUMPTIONS = ['real arithmetic', 'a class without a catalogue instance is reported as uncovered in the evidence, not as passing']
 RULE = 'case = operator expression; non-trivial = at least one tag/decorator is True for it; distinct keys'
@@ -71,6 +71,11 @@ def cases(tier, seed):
     for a, b in (('A', 'D'), ('Spd', 'Tz'), ('Tz', 'D'), ('Nsym', 'Spd')):
         out.append(('lazyinv', 'vec', ('@', ('leaf', a, 0), ('leaf', b, 1))))
         out.append(('lazyinv', 'vec', ('+', ('leaf', a, 0), ('leaf', b, 1))))
+    # the tag decorators themselves: a toy operator declared with each of the library's decorators (its matrix has the property for all
+    # parameter values), then its transpose (lazy unless the decorator rewires it), the transpose of that, and two lazy wrappers built by hand
+    for d in DECORATORS:
+        for form in ('op', 'T', 'TT', 'lazyT', 'lazyTT'):
+            out.append(('deco', d, form))
     from . import c11
     specs = [k for k in c11.cases(tier, seed) if k[0] == 'diag' and k[4]]
     for k in specs:
@@ -156,6 +161,8 @@ def run_case(key, twin=False):
         return _spec(key[1])
     if key[0] == 'lazyinv':
         return _lazyinv(key[1], key[2])
+    if key[0] == 'deco':
+        return _deco(key[1], key[2])
     _, fam, e = key
     bld = Builder(fam)
     try:
@@ -265,6 +272,88 @@ def _lazyinv(fam, e):
     n, r = bad[0]
     return violation(f'InverseOperator({show(e)}) [{fam}] answers {active}, but its operand is not "{n}" for some parameter values (and then neither is the inverse)',
                      model=(r.model if r is not None else {}), signature=f'c08-lazyinv-{n}:{type(op0).__name__}', kind=n, obligations=nob, tags=active, **common)
+
+
+DECORATORS = ['lower_triangular', 'upper_triangular', 'symmetric', 'diagonal', 'positive_semidefinite', 'negative_semidefinite']
+_TOYS = {}
+
+
+def _toy(d):
+    """A 3x3 toy operator declared with the library decorator `d`; its matrix has the declared property for every w (6 parameters)."""
+    if d in _TOYS:
+        return _TOYS[d]
+    from furax._base import core
+
+    def rows(w, x):
+        if d == 'lower_triangular':
+            return [w[0] * x[0], w[1] * x[0] + w[2] * x[1], w[3] * x[0] + w[4] * x[1] + w[5] * x[2]]
+        if d == 'upper_triangular':
+            return [w[0] * x[0] + w[1] * x[1] + w[3] * x[2], w[2] * x[1] + w[4] * x[2], w[5] * x[2]]
+        if d == 'symmetric':
+            return [w[0] * x[0] + w[1] * x[1] + w[3] * x[2], w[1] * x[0] + w[2] * x[1] + w[4] * x[2], w[3] * x[0] + w[4] * x[1] + w[5] * x[2]]
+        if d == 'diagonal':
+            return [w[0] * x[0], w[1] * x[1], w[2] * x[2]]
+        sg = 1.0 if d == 'positive_semidefinite' else -1.0
+        return [sg * w[0] * w[0] * x[0], sg * w[1] * w[1] * x[1], sg * w[2] * w[2] * x[2]]
+
+    class ToyTagged(core.AbstractLinearOperator):
+        w: jax.Array
+
+        def mv(self, x):
+            return jnp.concatenate([jnp.reshape(r, (1,)) for r in rows(self.w, x)])
+
+        def in_structure(self):
+            return jax.ShapeDtypeStruct((3,), self.w.dtype)
+
+    ToyTagged.__name__ = ToyTagged.__qualname__ = 'Toy_' + d
+    _TOYS[d] = getattr(core, d)(ToyTagged)
+    return _TOYS[d]
+
+
+def _deco_build(d, form, w):
+    from furax._base.core import TransposeOperator
+    op = _toy(d)(w)
+    if form == 'T':
+        return op.T
+    if form == 'TT':
+        return op.T.T
+    if form == 'lazyT':
+        return TransposeOperator(op)
+    if form == 'lazyTT':
+        return TransposeOperator(TransposeOperator(op))
+    return op
+
+
+def _deco(d, form):
+    ws = S(6)
+    op0 = _deco_build(d, form, jnp.arange(1.0, 7.0, dtype=ws.dtype))
+    xin = op0.in_structure()
+    tags = _tags(op0)
+    tags['orthogonal'] = False
+    active = [t for t, v in tags.items() if v]
+    if form == 'op' and not tags['is_' + d]:
+        return violation(f'decorator {d} does not register its tag on the decorated class', signature=f'c08-deco-unregistered:{d}', kind='unregistered')
+    if not active:
+        return ok(obligations=0, nontrivial=False, tag_queries=len(tags), sample=None)
+    ctx = E.Ctx()
+    dec = Decider()
+    x = E.symbols('x', xin)
+    mvx, _, _ = E.run(ctx, lambda w, x: _deco_build(d, form, w).mv(x), [('w', ws, 'sym'), ('x', xin, 'sym')])
+    try:
+        W = linear_matrix(E.flat_elems(mvx, ctx), E.flat_elems(x))
+    except ValueError:
+        return inconclusive('mv is not a linear form in x (C04)')
+    res = _check_matrix(tags, W, op0, ctx, dec, [], x, 3)
+    common = dict(prims=sorted(ctx.prims), **dec.stats())
+    nob = common.pop('obligations')
+    bad = [(n, r) for n, r in res if r is None or r.status != 'unsat']
+    if not bad:
+        return ok(obligations=nob, nontrivial=True, sample=dict(operator=f'{type(op0).__name__}[{d}/{form}]', tags=active, verdict='unsat'), **common)
+    if any(r is not None and r.status == 'unknown' for _, r in bad):
+        return inconclusive('solver unknown: ' + bad[0][0], obligations=nob, **common)
+    n, r = bad[0]
+    return violation(f'{type(op0).__name__} ({form} of a toy operator declared @{d}) carries tag {active} but "{n}" fails for some parameter values',
+                     model=(r.model if r is not None else {}), signature=f'c08-deco-{n}:{d}/{form}', kind=n, obligations=nob, tags=active, **common)
 
 
 def _spec_build(k, v):
@@ -377,7 +466,12 @@ def replay(key, model, info):
     if key[0] in ('toast', 'classes') or kind in ('square', 'T-is-A'):
         r = run_case(key)
         return r['status'] == 'violation', r.get('what', 'ok')
-    if key[0] == 'spec':
+    if kind == 'unregistered':
+        r = run_case(key)
+        return r['status'] == 'violation', r.get('what', 'ok')
+    if key[0] == 'deco':
+        op = _deco_build(key[1], key[2], model_tree(model, 'w', S(6)))
+    elif key[0] == 'spec':
         op = _spec_build(key[1], model_tree(model, 'v', S(*key[1][2])))
     elif key[0] == 'lazyinv':
         # the tag is claimed for the inverse; the failing property is evaluated on the inverse of the operand's matrix
